@@ -138,3 +138,19 @@ PROPS["C12"] = {
     "outside": ["concurrent submissions from several goroutines (the update lock protocol is C05-H3)", "gossip", "more than 3 transactions / 4 operations", "TTL-based expiry in v1"],
     "timeout_quick": 600, "timeout_thorough": 3000,
 }
+
+PROPS["C11"] = {
+    "files": ["evidence/pool.go", "evidence/verify.go", "types/evidence.go"],
+    "groups": [
+        {"dir": "evidence",
+         "quick": ["VP_C11_DuplicateVote", "VP_C11_Lifecycle_k3", "VP_C11_Lifecycle_k2_lca"],
+         "thorough": ["VP_C11_Lifecycle_k4", "VP_C11_Lifecycle_k3_lca"]},
+    ],
+    "bounds": {
+        "verification": "Pool.verify on duplicate-vote evidence built from really signed votes against a 2-validator chain: each bound field genuine or perturbed (height, round, type, same block, vote by another validator, vote signed by a stranger in the validator's name, evidence power / total (symbolic), evidence time), evidence height 5..9 under state height 10, MaxAgeNumBlocks 2..4, MaxAgeDuration 2/4 minutes: accepted exactly when genuine and not expired by both limits",
+        "lifecycle": "real Pool on the real MemDB with harness state/block stores; k = 3 (thorough 4) operations from {AddEvidence, CheckEvidence of a symbolic sub-list (optionally with a repeated item), Update with a symbolic subset committed, ReportConflictingVotes, restart (NewPool on the same DB)} over 2 duplicate-vote items (+ one genuine light-client-attack item, k = 2, thorough 3)",
+    },
+    "stubs": ["state store / block store = harness objects serving a concrete 2-validator chain", "ed25519 and sha256 concrete (real)"],
+    "outside": ["VerifyLightClientAttack field perturbations (only a genuine equivocation item is used)", "reactor gossip", "more than 3 evidence items"],
+    "timeout_quick": 420, "timeout_thorough": 3000,
+}
